@@ -1241,51 +1241,87 @@ pub fn fam_l1x(tier: Tier) -> Vec<Config> {
 /// C18 end to end: builder and CLI values that differ, nearest tags, filters;
 /// what the runner really does (budget on the first event, delay, limit,
 /// fail-fast) must be what the precedence of the statement resolves to.
-pub fn fam_resolve(_tier: Tier) -> Vec<Config> {
+pub fn fam_resolve(tier: Tier) -> Vec<Config> {
     let mut out = Vec::new();
     let s1 = Duration::from_secs(1);
     let s5 = Duration::from_secs(5);
+    let thorough = tier == Tier::Thorough;
+    let tags_alphabet: &[&str] = if thorough {
+        &["", "retry(1)", "retry.after(5s)", "retry(2).after(1s)", "retry(0)"]
+    } else {
+        &["", "retry(1)", "retry.after(5s)"]
+    };
+    let mut fh: Vec<(Option<&str>, u8)> = vec![
+        (None, 0u8),
+        (Some("@x"), 0),
+        (Some("not @x"), 0),
+        // the builder's hook setters rebuild the runner: nothing may get lost
+        (None, 1),
+        (None, 2),
+        (None, 3),
+    ];
+    if thorough {
+        for f in [Some("@x"), Some("not @x")] {
+            for h in 1..=3u8 {
+                fh.push((f, h));
+            }
+        }
+    }
+    // where the retry tag and the filter's tag sit: on the scenario, or on the feature
+    // of a scenario inside a rule
+    let placements: &[bool] = if thorough { &[false, true] } else { &[false] };
     for b_retry in [None, Some(1usize), Some(2)] {
         for c_retry in [None, Some(1usize), Some(2)] {
             for b_delay in [None, Some(s1), Some(s5)] {
                 for c_delay in [None, Some(s5)] {
-                    for tag in ["", "retry(1)", "retry.after(5s)"] {
+                    for tag in tags_alphabet {
                         for b_filter in [None, Some("@x"), Some("not @x")] {
-                            for (c_filter, hooks) in [
-                                (None, 0u8),
-                                (Some("@x"), 0),
-                                (Some("not @x"), 0),
-                                // the builder's hook setters rebuild the runner: nothing may get lost
-                                (None, 1),
-                                (None, 2),
-                                (None, 3),
-                            ] {
-                                let mut c = base(String::new());
-                                c.before = hooks & 1 != 0;
-                                c.after = hooks & 2 != 0;
-                                let mut tags = vec!["x"];
-                                if !tag.is_empty() {
-                                    tags.push(tag);
+                            for (c_filter, hooks) in &fh {
+                                for inherited in placements {
+                                    let (c_filter, hooks) = (*c_filter, *hooks);
+                                    let mut c = base(String::new());
+                                    c.before = hooks & 1 != 0;
+                                    c.after = hooks & 2 != 0;
+                                    let mut tags = vec!["x"];
+                                    if !tag.is_empty() {
+                                        tags.push(tag);
+                                    }
+                                    c.feats = if *inherited {
+                                        vec![
+                                            FeatSpec {
+                                                tags: tags.iter().map(|t| (*t).to_owned()).collect(),
+                                                rules: vec![RuleSpec {
+                                                    tags: vec![],
+                                                    bg: vec![],
+                                                    scenarios: vec![scen(&[], &[M])],
+                                                }],
+                                                ..Default::default()
+                                            },
+                                            feat(vec![scen(&[], &[M])]),
+                                        ]
+                                    } else {
+                                        vec![feat(vec![scen(&tags, &[M]), scen(&[], &[M])])]
+                                    };
+                                    c.items = (0..c.feats.len()).map(Item::Feat).collect();
+                                    c.conc_builder = Some(Some(2));
+                                    c.retries_builder = b_retry;
+                                    c.retries_cli = c_retry;
+                                    c.retry_after_builder = b_delay;
+                                    c.retry_after_cli = c_delay;
+                                    c.retry_filter_builder = b_filter.map(str::to_owned);
+                                    c.retry_filter_cli = c_filter.map(str::to_owned);
+                                    c.plan.gates = GateMode::Steps;
+                                    let infos = c.scen_infos();
+                                    // the first scenario always fails
+                                    c.plan.outcomes.insert(infos[0].calls[0].key.clone(), vec![Outcome::PanicString]);
+                                    c.bound = Some(1);
+                                    c.max_execs = 300;
+                                    c.name = format!(
+                                        "resolve/R|b{b_retry:?}|c{c_retry:?}|bd{b_delay:?}|cd{c_delay:?}|t{tag}|bf{b_filter:?}|cf{c_filter:?}|h{hooks}|inh{}",
+                                        u8::from(*inherited)
+                                    );
+                                    out.push(c);
                                 }
-                                c.feats = vec![feat(vec![scen(&tags, &[M]), scen(&[], &[M])])];
-                                c.items = vec![Item::Feat(0)];
-                                c.conc_builder = Some(Some(2));
-                                c.retries_builder = b_retry;
-                                c.retries_cli = c_retry;
-                                c.retry_after_builder = b_delay;
-                                c.retry_after_cli = c_delay;
-                                c.retry_filter_builder = b_filter.map(str::to_owned);
-                                c.retry_filter_cli = c_filter.map(str::to_owned);
-                                c.plan.gates = GateMode::Steps;
-                                let infos = c.scen_infos();
-                                // the first scenario always fails
-                                c.plan.outcomes.insert(infos[0].calls[0].key.clone(), vec![Outcome::PanicString]);
-                                c.bound = Some(1);
-                                c.max_execs = 300;
-                                c.name = format!(
-                                    "resolve/R|b{b_retry:?}|c{c_retry:?}|bd{b_delay:?}|cd{c_delay:?}|t{tag}|bf{b_filter:?}|cf{c_filter:?}|h{hooks}"
-                                );
-                                out.push(c);
                             }
                         }
                     }
